@@ -45,15 +45,55 @@ def main():
                 r[fmt] = "EXC:" + type(e).__name__
         return r
 
+    def churn(k, reuse):
+        """A fixed little design wired through anonymous bundles. With reuse, its AnonymousBundle objects are allocated
+        until they land on addresses that anonymous bundles of earlier, discarded designs had (an adversarial allocation
+        history for anything that remembers objects by address); without, they are simply fresh."""
+        from vlib import build as vbuild
+        B = h.Bundle(name="ChurnBus")
+        B.add(h.Signal(name="x")); B.add(h.Signal(name="y", width=2))
+        leaf = h.Module(name="ChurnLeaf%d" % k)
+        leaf.add(B(port=True), name="bus")
+        leaf.add(h.R(r=1)(p=leaf.bus.x, n=leaf.bus.y[0]), name="r")
+        top = h.Module(name="ChurnTop%d" % k)
+        sigs = [top.add(h.Signal(name="s%d" % i)) for i in range(4)]
+        wide = [top.add(h.Signal(name="w%d" % i, width=2)) for i in range(4)]
+        held = []
+        for i in range(4):
+            def make():
+                return h.AnonymousBundle(x=sigs[i], y=wide[(i + k) % 4])
+            ab = make()
+            tries = 0
+            while reuse and id(ab) not in vbuild.ANON_IDS and tries < 20000:
+                held.append(ab)  # keeps the rejected address occupied
+                ab = make()
+                tries += 1
+            if reuse and id(ab) in vbuild.ANON_IDS:
+                stats["reincarnated"] = stats.get("reincarnated", 0) + 1
+            vbuild.ANON_IDS.add(id(ab))
+            top.add(leaf(bus=ab), name="u%d" % i)
+        del held
+        return top
+
+    stats = {}
     items = job["items"]
+    drop = job.get("drop", False)  # earlier designs are discarded and collected, so later objects re-use their addresses
+    import gc
     for pos in job["order"]:
         it = items[pos]
         noise(job.get("noise", {}).get(str(pos)))
+        if drop:
+            del keep[:]
+            top = b = mods = None
+            gc.collect()
         try:
             if "spec" in it:
                 b = Builder(it["spec"])
                 keep.append(b)
                 top = b.module(it["spec"]["top"])
+            elif "churn" in it:
+                top = churn(it["churn"], drop)
+                keep.append(top)
             elif "pdk_item" in it:
                 from vlib.checks import c15
                 case = c15.C06_ITEMS[it["pdk_item"]]
@@ -68,6 +108,7 @@ def main():
             out[it["key"]] = {"proto": "BUILD-EXC:" + type(e).__name__}
             continue
         out[it["key"]] = digest(top)
+    out["__stats__"] = stats
     json.dump(out, open(sys.argv[2], "w"))
 
 
